@@ -306,6 +306,10 @@ def build_sampler(name, cxx, select, input_name, weighted=False, replacement=Tru
         wp.calls += [(r'^sample_without_replacement\|', h_sampler_call(False, False)),
                      (r'^sample_with_replacement\|nano::indices_t \(nano::sample_indices_t, nano::sample_weights_t', h_sampler_call(True, True)),
                      (r'^sample_with_replacement\|', h_sampler_call(True, False))]
+    elif weighted:
+        # a weighted sampler that delegates to the uniform overload on some path is decided through that overload's contract
+        # (which promises nothing about weights) instead of ending as "call not mapped"
+        wp.calls += [(r'^sample_with_replacement\|nano::indices_t \(nano::sample_indices_t, (const )?nano::tensor_size_t, nano::rng_t &\)', h_sampler_call(True, False))]
     wp.post = post
     wp.run(fn, src)
     if wp.returns == 0:
